@@ -11,7 +11,9 @@ import (
 	"github.com/datastax/go-cassandra-native-protocol/segment"
 	plz4 "github.com/pierrec/lz4/v4"
 
+	"verif/fcheck"
 	"verif/gen"
+	"verif/ref/reflz4"
 	"verif/ref/refseg"
 	"verif/vlib"
 )
@@ -67,8 +69,12 @@ func main() {
 	vlib.ParFor(len(ls), func(i int) {
 		n := ls[i]
 		cls := classes
-		if c.Thorough() && (n <= 4096 || n&(n-1) == 0 || n >= 131000) {
-			cls = gen.PayloadClasses
+		if c.Thorough() {
+			// every length with one of 4 classes in rotation; small, power-of-two, window-edge and maximal lengths with all classes
+			cls = []string{classes[n%len(classes)]}
+			if n <= 4096 || n&(n-1) == 0 || n >= 131000 || (n >= 65530 && n <= 65560) {
+				cls = gen.PayloadClasses
+			}
 		}
 		for _, class := range cls {
 			payload := gen.Payload(n, class)
@@ -92,6 +98,7 @@ func main() {
 				// reference bytes must decode
 				checkDecode(c, plain, "none/ref", want, payload, sc, &refDecoded)
 				// ---------- LZ4 ----------
+				blockBad := false
 				seg = &segment.Segment{Header: &segment.Header{IsSelfContained: sc}, Payload: &segment.Payload{UncompressedData: append([]byte{}, payload...)}}
 				buf = &bytes.Buffer{}
 				if err := lz.EncodeSegment(seg, buf); err != nil {
@@ -132,16 +139,28 @@ func main() {
 						out := make([]byte, n)
 						m, err := plz4.UncompressBlock(tx, out)
 						if err != nil || m != n || !bytes.Equal(out[:m], payload) {
-							c.Violation(map[string]string{"kind": "layout", "codec": "lz4", "part": "block"}, fmt.Sprintf("transmitted block does not decompress (independently) to the payload: n=%d err=%v, payload %d (%s)", m, err, n, class), n)
+							if cause := fcheck.LZ4Cause(payload, tx); cause != "" {
+								// the compressor of the dependency produced a block that is wrong by itself; the decode
+								// failure that would follow is the same finding
+								c.Violation(map[string]string{"kind": "lz4-corrupt-block", "cause": cause}, fmt.Sprintf("the LZ4 block emitted for a payload of %d bytes (%s) does not reproduce the payload (independent block reader): n=%d err=%v", n, class, m, err), map[string]interface{}{"len": n, "class": class})
+								blockBad = true
+							} else {
+								c.Violation(map[string]string{"kind": "layout", "codec": "lz4", "part": "block"}, fmt.Sprintf("transmitted block does not decompress (independently) to the payload: n=%d err=%v, payload %d (%s)", m, err, n, class), n)
+							}
 						}
 					}
 				}
-				checkDecode(c, lz, "lz4", wire, payload, sc, &validated)
+				if !blockBad {
+					checkDecode(c, lz, "lz4", wire, payload, sc, &validated)
+				}
 				// reference encodings for a compressing connection: fallback form and compressed form
 				checkDecode(c, lz, "lz4/ref-fallback", refseg.Compressed(payload, 0, sc), payload, sc, &refDecoded)
 				if n > 0 {
 					cb := make([]byte, plz4.CompressBlockBound(n))
 					if m, err := plz4.CompressBlock(payload, cb, nil); err == nil && m > 0 && m <= refseg.MaxPayload {
+						if d, ok := reflz4.Decode(cb[:m]); !ok || !bytes.Equal(d, payload) {
+							continue // the block is not a valid encoding of the payload: not a reference segment
+						}
 						checkDecode(c, lz, "lz4/ref-compressed", refseg.Compressed(cb[:m], n, sc), payload, sc, &refDecoded)
 					}
 				}
@@ -191,7 +210,7 @@ func main() {
 	c.Set("reference_segments_decoded_by_impl", refDecoded)
 	c.Set("payload_lengths", len(ls))
 	c.Set("content_classes", classes)
-	c.Set("rule", "payload length x content class x self-contained x {no compressor, LZ4}; thorough = every length 0..131071")
+	c.Set("rule", "payload length x content class x self-contained x {no compressor, LZ4}; quick: lengths 0..4096, +-8 around every power of two, the last 8, all classes; thorough: every length 0..131071 with one of 4 classes in rotation and all classes at small, power-of-two, window-edge and maximal lengths")
 	c.Finish()
 }
 
